@@ -9,7 +9,18 @@ model on directed + exhaustive-small + random names, (c) identifiers declared by
 seeded sweep of random + directed schemas x configurations through the real api.Generate (whose own validation
 type-checks the exec, model and resolver packages) followed by `go build`; a failure found there is a concrete
 failing input.
+
+Leaf-type bindings (added for the miss C17-change2): custom scalars / enums bound through `models:` to hand-written
+Marshal/Unmarshal function pairs and MarshalGQL/UnmarshalGQL types over unnamed slices, named slices,
+json.RawMessage, maps, pointers, structs, arrays, basic types, used bare / non-null / under list wrappers in output,
+argument and input-field position ("bindings" projects c17b*). They are generated, compiled AND executed through
+the generated server; every response is compared with the Spec of Model/TypeRef.lean (the response shape is
+decided by the GraphQL type alone: a named type is ONE leaf written by its bound function, whatever its Go type).
+Proved over the regenerated `(*TypeReference).IsSlice` rule (Gen/TypeRefRules.lean): named_never_slice,
+processType_never_nil_gql, echo_eq_spec, output_eq_spec; the real TypeReference predicates / Elem() chains are
+compared with the model on a GraphQL-wrapper x Go-type grid (-mode typerefs).
 """
+import json
 import os
 import re
 import shutil
@@ -85,6 +96,23 @@ def classify(proj_dir, rc, err):
         shape.update({"class": "resolver-interface-of-leading-underscore-type",
                       "object_type_with_leading_underscore": bool(re.search(r"^(extend )?type _\w+", schema, re.M))})
         return shape, head
+    shapes_tsv = [l.split("\t") for l in read(os.path.join(proj_dir, "shapes.tsv")).split("\n") if l]
+    if shapes_tsv:
+        shape["bound_go_types"] = sorted({r[1] for r in shapes_tsv})
+    m = re.search(r"unexpected type (\*types\.\w+)", msg)
+    if m and rc == 4 and "TypeIdentifier" in err:
+        shape.update({"class": "typeidentifier-unexpected-type", "go_type": m.group(1),
+                      "binds_function_pair_over_unnamed_array": any(r[1] == "a" for r in shapes_tsv)})
+        shape.pop("bound_go_types", None)
+        return shape, head
+    if rc == 4 and "nil pointer dereference" in msg and "UniquenessKey" in err and "processType" in err:
+        shape.update({"class": "processtype-nil-gql-panic"})
+        return shape, "panic: nil pointer dereference in (*TypeReference).UniquenessKey <- codegen.processType (Elem() of a reference without GQL.Elem)"
+    if rc in (3, 6) and re.search(r"cannot use (res|v) \(variable of type \*?\[\][\w.]+\) as \*?\[\][\w.]+ value", msg) \
+            and any(r[1].startswith("p,s") for r in shapes_tsv):
+        shape.update({"class": "function-pair-over-pointer-to-slice", "binds_function_pair_over_pointer_to_slice": True})
+        shape.pop("bound_go_types", None)
+        return shape, head
     norm = re.sub(r"[\w./-]*/([\w.-]+\.go):\d+:\d+", r"\1", head)
     norm = re.sub(r"c17[rd]\w+", "P", norm)
     shape.update({"class": "other", "message": norm[:200]})
@@ -98,7 +126,11 @@ def run(ctx):
         "emitted-identifier model covers the model file (types, enum constants, All<Enum> vars, struct fields) and the <T>Resolver interfaces (method + parameter names); generated executor internals are covered by the build sweep only",
         "hypotheses of emitted_nodup_per_scope (fields / arguments of one type normalise to distinct Go names, no type named All<Enum>) are preconditions the sweep's grammar respects; gqlgen does not claim to handle those collisions",
     ]
-    ok_extract = ctx.extract("Keywords")
+    ctx.assumptions += [
+        "type-reference model (Model/TypeRef.lean) covers leaf types (scalars / enums with a binding); pointer plumbing (&res, *v, IsTargetNilable) is transparent in the model and checked by the Go compiler in the sweep; null propagation out of [T!] and errors of bound functions are not modelled",
+        "execution of bindings projects: resolvers are reflection-made (return a filled value / their argument / a field-wise copy of their input), the bound functions are exact round trips of a canonical text, so a response leaf shows which bound function was called and with which whole value",
+    ]
+    ok_extract = ctx.extract("Keywords", "TypeRefRules")
     proved = ok_extract and ctx.prove(props=["GqlgenVerif.Props.C17"])
     if ok_extract and not proved:
         ctx.cov["proof_failure"] = ctx.proof_failure
@@ -193,6 +225,37 @@ def run(ctx):
             rep["shape"] = {"function": "ToGo/ToGoPrivate", "verdict": ",".join(vs)}
         ctx.violation(rep, no_failing_input=not failing)
 
+    # ------------------------------------------------------------ type references: real predicates / Elem() chains vs model
+    rc, so, se = ctx.harness("c17", ["-mode", "typerefs", "-tier", ctx.tier, "-seed", ctx.seed])
+    if rc != 0:
+        raise RuntimeError("harness typerefs failed: " + se[-2000:])
+    trows = [l.split("\t") for l in so.split("\n") if l.startswith("r\t")]
+    tref_div = 0
+    tref_bad = []
+    if have_model:
+        tmodel = ctx.driver("c17", ["tref %s %s %s %s" % (r[1], r[2], r[3], r[4]) for r in trows])
+        tspec = ctx.driver("c17", ["chktref " + r[5] for r in trows])
+        reported = set()
+        for r, m, v in zip(trows, tmodel, tspec):
+            branch["typeref:" + r[1]] += 1
+            nontriv.add("tr" + "/".join(r[1:5]))
+            desc = "config.TypeReference{GQL: %s, GO: %s(target %s)} (omit_slice_element_pointers=%s): IsSlice/IsPtrToSlice/IsPtrToPtr/IsPtrToIntf/IsNilable:GO:GQL down the Elem() chain = %s" % (
+                r[3], "CopyModifiersFromAst" if r[1] == "cm" else "", r[4], r[2], r[5])
+            if v != "ok":
+                tref_bad.append([r[1], r[2], r[3], r[4], r[5], v])
+                if v in reported:
+                    continue
+                reported.add(v)
+                ctx.violation({"kind": "spec", "what": "type reference", "case": r, "verdict": v, "model": m,
+                               "shape": {"stage": "typeref", "verdict": v, "target": r[4]},
+                               "replay": desc + " -> " + v + " (a named GraphQL type must never be treated as a list; go/harness/c17 -mode typerefs)"})
+            elif m != r[5]:
+                tref_div += 1
+                if tref_div <= 5:
+                    ctx.violation({"kind": "correspondence", "what": "type reference predicates", "case": r, "model": m,
+                                   "replay": desc + "; Model/TypeRef.lean says " + m}, no_failing_input=True)
+    ctx.cov["typerefs"] = {"cases": len(trows), "divergences": tref_div, "spec_failures": len(tref_bad), "spec_failure_cases": tref_bad[:40]}
+
     # ------------------------------------------------------------ proof failure: search for a failing input
     if ok_extract and not proved:
         found = False
@@ -230,7 +293,8 @@ def run_sweep(ctx, have_model, branch, nontriv):
     root = os.path.join(vf.GO, "genout", "c17")
     shutil.rmtree(root, ignore_errors=True)
     os.makedirs(root)
-    rc, so, se = ctx.harness("c17", ["-mode", "schemas", "-out", root, "-n", n, "-seed", ctx.seed, "-tier", ctx.tier])
+    rc, so, se = ctx.harness("c17", ["-mode", "schemas", "-out", root, "-n", n, "-seed", ctx.seed, "-tier", ctx.tier,
+                                     "-bindings", "-corpus", os.path.join(vf.VERIF, "corpus", "C17", "bindings.txt")])
     if rc != 0:
         raise RuntimeError("harness schemas failed: " + se[-2000:])
     projects = [l.split("\t")[1] for l in so.split("\n") if l.startswith("project\t")]
@@ -304,7 +368,7 @@ def run_sweep(ctx, have_model, branch, nontriv):
 
     decl_out = {}
     with ThreadPoolExecutor(max_workers=8) as ex:
-        for p, (rc, so, se) in ex.map(decls, [p for p in ok if p not in build_fail and not p.endswith("ab")]):
+        for p, (rc, so, se) in ex.map(decls, [p for p in ok if p not in build_fail and not p.endswith("ab") and not p.startswith("c17b")]):
             if rc != 0:
                 raise RuntimeError("harness decls failed for %s: %s" % (p, (so + se)[-1500:]))
             d = dict(l.split("\t", 1) for l in so.split("\n") if "\t" in l)
@@ -342,11 +406,13 @@ def run_sweep(ctx, have_model, branch, nontriv):
                                "replay": "project %s: identifiers declared by the generated files differ from Naming.emitted" % p},
                               no_failing_input=True)
 
+    binding = run_bindings(ctx, have_model, root, [p for p in ok if p.startswith("c17b") and p not in build_fail], hbin, branch, nontriv)
+
     classes = Counter()
     samples = []
     for p in projects:
         rc, se = results[p]
-        branch["sweep:" + ("directed" if p.startswith("c17d") else "autobind-no-models" if p.endswith("ab") else "random")] += 1
+        branch["sweep:" + ("directed" if p.startswith("c17d") else "bindings" if p.startswith("c17b") else "autobind-no-models" if p.endswith("ab") else "random")] += 1
         nontriv.add("p" + p)
         if rc == 0 and p not in build_fail:
             classes["ok"] += 1
@@ -357,6 +423,9 @@ def run_sweep(ctx, have_model, branch, nontriv):
         classes[shape.get("class", "?")] += 1
         d = os.path.join(root, p)
         files = {f: read(os.path.join(d, f)) for f in sorted(os.listdir(d)) if f.endswith(".graphql") or f == "gqlgen.yml"}
+        if p.startswith("c17b"):
+            files["ext/ext.go"] = "go/harness/c17/bindext.go.txt (hand-written user package: Marshal/Unmarshal function pairs and MarshalGQL types)"
+            files["shapes.tsv"] = read(os.path.join(d, "shapes.tsv"))
         rep = {"kind": "generation", "project": p, "rc": rc, "first_error": head[:600], "errors": first_errors(se)[:12],
                "shape": shape, "input": files,
                "replay": "write the files of `input` into a directory under /verif/go/genout/, run `.cache/h_c17 -mode gen -dir <dir>` (api.Generate + stubgen from /repo): %s" % head[:300]}
@@ -366,5 +435,107 @@ def run_sweep(ctx, have_model, branch, nontriv):
     return {"projects": len(projects), "random": len([p for p in projects if p.startswith("c17r")]),
             "generated_and_typechecked": classes["ok"], "outcome_classes": dict(classes),
             "declared_identifier_comparisons": emit_cmp, "declared_identifiers_compared": emit_idents,
-            "failure_samples": samples,
+            "failure_samples": samples, "bindings": binding,
             "note": "sampled support for the first sentence of C17, not proof"}
+
+
+def run_bindings(ctx, have_model, root, projs, hbin, branch, nontriv):
+    """Execute the generated servers of the bindings projects and compare every response with the Spec (and the
+    implementation model) of Model/TypeRef.lean."""
+    env = vf.go_env()
+
+    def build_run(p):
+        d = os.path.join(root, p)
+        rc, so, se = vf.sh(["go", "build", "-o", os.path.join(d, "run.bin"), "./genout/c17/%s/run" % p], cwd=vf.GO, env=env, timeout=900)
+        if rc != 0:
+            return p, "build", (so + se)
+        rc, so, se = vf.sh([os.path.join(d, "run.bin"), os.path.join(d, "cases.tsv")], cwd=d, env=env, timeout=300)
+        if rc != 0:
+            return p, "run", (so + se)[-3000:]
+        return p, "ok", so
+
+    outs = {}
+    with ThreadPoolExecutor(max_workers=8) as ex:
+        for p, st, o in ex.map(build_run, projs):
+            outs[p] = (st, o)
+    stats = {"projects": len(projs), "executed_queries": 0, "leaf_checks": 0, "spec_failures": 0, "model_divergences": 0,
+             "shapes": Counter(), "positions": Counter()}
+    jobs = []   # (project, case id, query, key, gtype, val, shape, pos, actual)
+    for p in projs:
+        d = os.path.join(root, p)
+        st, o = outs[p]
+        files = {f: read(os.path.join(d, f)) for f in ("schema.graphql", "gqlgen.yml", "shapes.tsv")}
+        if st != "ok":
+            ctx.violation({"kind": "generation", "project": p, "stage": "runner-" + st, "errors": first_errors(o)[:12], "input": files,
+                           "shape": {"stage": "runner-" + st, "class": "other", "message": (first_errors(o) or [""])[0][:200]},
+                           "replay": "bindings project %s (go/genout/c17/%s): the runner over the generated executor + stub does not %s: %s" % (
+                               p, p, st, (first_errors(o) or [""])[0][:300])})
+            continue
+        target = {r[0]: r[1] for r in (l.split("\t") for l in files["shapes.tsv"].split("\n") if l)}
+        om = "1" if re.search(r"^omit_slice_element_pointers: true", files["gqlgen.yml"], re.M) else "0"
+        sample, resp = {}, {}
+        for l in o.split("\n"):
+            f = l.split("\t", 2)
+            if len(f) == 3 and f[0] == "sample":
+                sample[f[1]] = f[2]
+            elif len(f) == 3 and f[0] == "resp":
+                resp[f[1]] = f[2]
+        for l in read(os.path.join(d, "cases.tsv")).split("\n"):
+            c = l.split("\t")
+            if len(c) < 3:
+                continue
+            stats["executed_queries"] += 1
+            raw = resp.get(c[0], "MISSING")
+            try:
+                body = json.loads(raw)
+            except ValueError:
+                body = {"errors": [{"message": raw[:300]}]}
+            for chk in c[2:]:
+                key, gtype, val, shp, pos = chk.split("=")
+                if "S" in val.split(","):
+                    txt = json.loads(sample[shp])
+                    if gtype.split(":")[-1] != "-":
+                        txt = txt.split("|", 1)[1]
+                    val = ",".join("a" + txt.encode().hex() if t == "S" else t for t in val.split(","))
+                act = body.get("data") if not body.get("errors") else None
+                if act is not None:
+                    for k in key.split("."):
+                        act = act.get(k) if isinstance(act, dict) else None
+                jobs.append((p, c[0], c[1], key, gtype, val, shp, pos, target[shp], om, act, body.get("errors"), files))
+    if have_model and jobs:
+        specs = ctx.driver("c17", ["spec %s %s" % (j[4], j[5]) for j in jobs])
+        models = ctx.driver("c17", ["%s %s %s %s %s" % ("mout" if j[7] == "out" else "echo", j[9], j[4], j[8], j[5]) for j in jobs])
+        seen = set()
+        for j, sp, mo in zip(jobs, specs, models):
+            p, cid, query, key, gtype, val, shp, pos, tgt, om, act, errs, files = j
+            stats["leaf_checks"] += 1
+            stats["shapes"][shp] += 1
+            stats["positions"][pos] += 1
+            nontriv.add("b%s/%s/%s" % (shp, pos, gtype))
+            branch["binding:" + pos] += 1
+            try:
+                want = json.loads(sp)
+            except ValueError:
+                raise RuntimeError("bindings: Spec not evaluable for %s %s: %s" % (gtype, val, sp))
+            good = errs is None and act == want
+            if not good:
+                stats["spec_failures"] += 1
+                k = (shp, pos, gtype)
+                if k in seen:
+                    continue
+                seen.add(k)
+                ctx.violation({"kind": "spec", "what": "response of the generated server", "project": p, "query": query, "at": key,
+                               "graphql_type": gtype, "bound_shape": shp, "bound_go_type": tgt, "position": pos,
+                               "expected": want, "got": act, "errors": errs, "input": files,
+                               "shape": {"stage": "execute", "class": "binding-response-differs-from-spec", "bound_shape": shp, "position": pos},
+                               "replay": "bindings project %s (go/genout/c17/%s: schema.graphql, gqlgen.yml, ext/ = go/harness/c17/bindext.go.txt; run.bin cases.tsv): query %s -> %s = %s%s, Spec (one leaf per named type, written by the bound %s function on the whole value): %s" % (
+                                   p, p, query, key, json.dumps(act), (" errors " + json.dumps(errs)[:300]) if errs else "", shp, sp)})
+            elif mo != sp:
+                stats["model_divergences"] += 1
+                if stats["model_divergences"] <= 3:
+                    ctx.violation({"kind": "correspondence", "what": "Model/TypeRef.lean echo/marshal differs from the generated server", "project": p,
+                                   "query": query, "model": mo, "implementation": act,
+                                   "replay": "project %s query %s: implementation %s, model %s" % (p, query, json.dumps(act), mo)}, no_failing_input=True)
+    stats["shapes"] = dict(stats["shapes"])
+    stats["positions"] = dict(stats["positions"])
+    return stats
